@@ -54,7 +54,12 @@ type server struct {
 	pos    int64 // stream writer position
 }
 
-var servedType tg.StorageFileTypeClass = &tg.StorageFileJpeg{}
+// the fake DC labels non-empty chunks and empty chunks (past the end) with different types, so that
+// "the type of the chunk that stopped the download" is observable
+var (
+	dataType  tg.StorageFileTypeClass = &tg.StorageFileJpeg{}
+	emptyType tg.StorageFileTypeClass = &tg.StorageFileUnknown{}
+)
 
 func (s *server) UploadGetFile(ctx context.Context, r *tg.UploadGetFileRequest) (tg.UploadFileClass, error) {
 	s.mu.Lock()
@@ -83,7 +88,11 @@ func (s *server) UploadGetFile(ctx context.Context, r *tg.UploadGetFileRequest) 
 	} else if r.Offset+n > s.c.Size {
 		n = s.c.Size - r.Offset
 	}
-	return &tg.UploadFile{Type: servedType, Bytes: xfer.Bytes(r.Offset, int(n))}, nil
+	typ := dataType
+	if n == 0 {
+		typ = emptyType
+	}
+	return &tg.UploadFile{Type: typ, Bytes: xfer.Bytes(r.Offset, int(n))}, nil
 }
 func (s *server) UploadGetFileHashes(ctx context.Context, r *tg.UploadGetFileHashesRequest) ([]tg.FileHash, error) {
 	return nil, fmt.Errorf("unexpected UploadGetFileHashes")
@@ -117,7 +126,7 @@ func (s *server) WriteAt(b []byte, off int64) (int, error) {
 
 type obs struct {
 	Log    []ev
-	TypOK  bool
+	Typ    int // 1 type of the non-empty chunks, 2 type of the empty chunks, 0 nil / other
 	TypNil bool
 	Err    string
 	Panic  string
@@ -147,7 +156,12 @@ func run(c dcase) obs {
 	o.Log = append([]ev(nil), s.log...)
 	s.mu.Unlock()
 	o.TypNil = typ == nil
-	o.TypOK = typ == servedType
+	switch typ {
+	case dataType:
+		o.Typ = 1
+	case emptyType:
+		o.Typ = 2
+	}
 	return o
 }
 
@@ -184,7 +198,7 @@ func main() {
 					writes = append(writes, hx.Z(int64(e.Len)))
 				}
 			}
-			coq = fmt.Sprintf("CStream %d %d %s %s %s %s %s", dc.Size, dc.P, hx.List(env), hx.List(writes), hx.List(reqs), hx.B(o.TypOK), hx.B(finished))
+			coq = fmt.Sprintf("CStream %d %d %s %s %s %d %s", dc.Size, dc.P, hx.List(env), hx.List(writes), hx.List(reqs), o.Typ, hx.B(finished))
 		} else {
 			l := make([]string, len(o.Log))
 			for i, e := range o.Log {
@@ -193,9 +207,9 @@ func main() {
 					retries++
 				}
 			}
-			coq = fmt.Sprintf("CPar %d %d %d %s %s %s", dc.Size, dc.P, dc.Threads, hx.List(l), hx.B(o.TypOK), hx.B(finished))
+			coq = fmt.Sprintf("CPar %d %d %d %s %d %s", dc.Size, dc.P, dc.Threads, hx.List(l), o.Typ, hx.B(finished))
 		}
-		js := map[string]interface{}{"case": dc, "events": len(o.Log), "retries": retries, "err": o.Err, "typ_ok": o.TypOK}
+		js := map[string]interface{}{"case": dc, "events": len(o.Log), "retries": retries, "err": o.Err, "typ": o.Typ}
 		sh, ix := c.Case(coq, js)
 		c.Sample(js)
 		if dc.Size > int64(dc.P) && retries > 0 {
@@ -253,8 +267,28 @@ func main() {
 			bad("wrong-length", "%d bytes written, file has %d", pos, dc.Size)
 			return
 		}
-		if !o.TypOK {
-			bad("wrong-file-type", "returned type nil=%v, not the served one", o.TypNil)
+		// the reported type: stream = the type of the chunk that stopped it (short last chunk, or the empty
+		// one when the size is a multiple of the part size); parallel = the type of one of the chunks that
+		// can stop a worker (short last chunk, or an empty chunk that was actually requested)
+		stopEmpty := dc.Size%int64(dc.P) == 0
+		emptyRequested := false
+		for _, e := range o.Log {
+			if e.Kind == 0 && !e.Rejected && e.Off >= dc.Size {
+				emptyRequested = true
+			}
+		}
+		okTyp := false
+		switch {
+		case dc.Stream || stopEmpty:
+			okTyp = (stopEmpty && o.Typ == 2) || (!stopEmpty && o.Typ == 1)
+		default:
+			okTyp = o.Typ == 1 || (o.Typ == 2 && emptyRequested)
+		}
+		if !okTyp {
+			bad("wrong-file-type", "returned type code %d (nil=%v): not the type of a chunk that stopped the download (size %% part = %d, empty chunk requested = %v)", o.Typ, o.TypNil, dc.Size%int64(dc.P), emptyRequested)
+		}
+		if !dc.Stream && !stopEmpty {
+			c.Count(fmt.Sprintf("parallel:type-of-%s-chunk", map[int]string{1: "short", 2: "empty"}[o.Typ]))
 		}
 	}
 
